@@ -693,7 +693,7 @@ def _corpus() -> list[dict]:
 
 
 def run(ctx: Ctx) -> None:
-    n = ctx.budget(200, 8000)
+    n = ctx.budget(200, 6000)
     scenarios = _corpus() + [gen_scenario(ctx.rng, ctx.seed * 1_000_000 + i) for i in range(n)]
     chunk = 2500
     for k in range(0, len(scenarios), chunk):
